@@ -286,7 +286,10 @@ reg(Contract(
     "LAMMPSEngine._propagate_from#consume", src=(LAMMPS_PY, "LAMMPSEngine._propagate_from"), slice=_consume_slice,
     cases=[Case("sym", _lmp_make)],
     ensures=[("terminated_process_is_waited_for", lambda c: z3.BoolVal(not c.st.ghost.get("killed") or bool(c.st.ghost.get("waited")))),
-             ("reported_success_is_the_outcome_of_the_last_frame", stop_post)],
+             ("reported_success_is_the_outcome_of_the_last_frame", stop_post),
+             ("a_stop_also_ends_the_polling_loop", lambda c: z3.Implies(c.st.ghost.get("stopped", z3.BoolVal(False)), z3.And(
+                 (c.v("iterations_after_stop") if z3.is_expr(c.v("iterations_after_stop")) else z3.IntVal(c.v("iterations_after_stop"))) >= 2,
+                 c.v("lammps_was_terminated") if z3.is_expr(c.v("lammps_was_terminated")) else z3.BoolVal(bool(c.v("lammps_was_terminated"))))))],
     canaries=[("never_consumes", lambda c: c.st.ghost.get("appended", z3.IntVal(0)) == 0)],
     loops={"for:frame": LoopSpec(lambda ctx: _lmp_inv(ctx) + stop_inv(ctx), ghost_init=stop_ghost)},
 ))
